@@ -102,6 +102,25 @@ def execute_e2e(case, chooser):
                            feats={("e2e", case["transport"], case["backend"], case["nbodies"])}, sample=None, violations=V)
 
 
+RETOBJ = ["none", "false", "zero", "exc_value", "exc_oserror", "exc_sysexit", "exc_kbd", "exc_class", "exc_in_list"]
+
+
+def make_retobj(which, tid):
+    return {"none": None, "false": False, "zero": 0, "exc_value": ValueError("returned, not raised", tid),
+            "exc_oserror": OSError("timeout returned as a value", tid), "exc_sysexit": SystemExit(3),
+            "exc_kbd": KeyboardInterrupt(), "exc_class": KeyError, "exc_in_list": [RuntimeError("x", tid)]}[which]
+
+
+def canon_ret(v):
+    if isinstance(v, BaseException):
+        return ("excobj", type(v).__name__, repr(v.args))
+    if isinstance(v, type):
+        return ("class", v.__name__)
+    if isinstance(v, list):
+        return ("list", [canon_ret(x) for x in v])
+    return v
+
+
 def gen(rng, tier):
     if rng.random() < 0.12:
         return gen_e2e(rng, tier)
@@ -119,8 +138,11 @@ def gen(rng, tier):
         mine = []
         for _ in range(nsp):
             k = rng.random()
-            if k < 0.45:
+            if k < 0.35:
                 fn = ["ret", tid]
+            elif k < 0.45:
+                # a function may return anything, also None, falsy values and exception objects: get() returns it
+                fn = ["retobj", rng.choice(RETOBJ), tid]
             elif k < 0.65:
                 fn = ["raise", rng.choice(sorted(EXC) + ["FnError"]), tid]
             elif k < 0.80:
@@ -258,6 +280,8 @@ def execute(case, chooser):
             try:
                 if kind == "ret":
                     return ("v", tid)
+                if kind == "retobj":
+                    return make_retobj(fn[1], tid)
                 if kind == "raise":
                     cls = FnError if fn[1] == "FnError" else EXC[fn[1]]
                     raise cls("boom", tid)
@@ -298,7 +322,7 @@ def execute(case, chooser):
                         res = ("skipped",)
                     else:
                         v = getattr(r, k)(op[2]) if op[2] is not None else getattr(r, k)()
-                        res = ("ret", v)
+                        res = ("ret", canon_ret(v))
                 elif k == "waitall":
                     res = ("ret", pool.waitall(op[1]) if op[1] is not None else pool.waitall())
                 elif k == "trigger":
@@ -487,6 +511,9 @@ def oracle(case, H, fstart, fend, st, s):
             if op[0] == "get":
                 if fn[0] == "raise":
                     V.append(v("get-wrong-result", key, f"get({tid}) returned {res[1]!r}, function raised"))
+                elif fn[0] == "retobj":
+                    if res[1] != canon_ret(make_retobj(fn[1], tid)):
+                        V.append(v("get-wrong-result", key + ";retobj=" + fn[1], f"get({tid}) returned {res[1]!r}"))
                 elif res[1] != ("v", tid):
                     V.append(v("get-wrong-result", key, f"get({tid}) returned {res[1]!r}"))
         else:
